@@ -162,6 +162,10 @@ type tokShard struct {
 }
 
 func tokWorker(w *pool.W, arg json.RawMessage) {
+	if aborted() {
+		w.Emit(sumRec{Kind: "sum", Fam: "aborted", Skipped: 0, Outcomes: map[string]int{"shard-skipped-after-abort": 1}})
+		return
+	}
 	defer shardCleanup()
 	var sh tokShard
 	json.Unmarshal(arg, &sh)
@@ -202,6 +206,10 @@ type byteShard struct {
 }
 
 func byteWorker(w *pool.W, arg json.RawMessage) {
+	if aborted() {
+		w.Emit(sumRec{Kind: "sum", Fam: "aborted", Skipped: 0, Outcomes: map[string]int{"shard-skipped-after-abort": 1}})
+		return
+	}
 	defer shardCleanup()
 	var sh byteShard
 	json.Unmarshal(arg, &sh)
@@ -271,6 +279,10 @@ func mutant(src string, toks []span, inner []int, mut string, i int) string {
 }
 
 func corpusWorker(w *pool.W, arg json.RawMessage) {
+	if aborted() {
+		w.Emit(sumRec{Kind: "sum", Fam: "aborted", Skipped: 0, Outcomes: map[string]int{"shard-skipped-after-abort": 1}})
+		return
+	}
 	defer shardCleanup()
 	var sh corpusShard
 	json.Unmarshal(arg, &sh)
@@ -315,6 +327,10 @@ func ladderSrc(name string, depth, mode int) (string, bool) {
 }
 
 func ladderWorker(w *pool.W, arg json.RawMessage) {
+	if aborted() {
+		w.Emit(sumRec{Kind: "sum", Fam: "aborted", Skipped: 0, Outcomes: map[string]int{"shard-skipped-after-abort": 1}})
+		return
+	}
 	var sh ladderShard
 	json.Unmarshal(arg, &sh)
 	debug.SetMaxStack(1 << 30) // Go's own default on 64-bit: what the real CLI would have
@@ -344,6 +360,10 @@ func progSrc(i, mode int) string {
 }
 
 func progWorker(w *pool.W, arg json.RawMessage) {
+	if aborted() {
+		w.Emit(sumRec{Kind: "sum", Fam: "aborted", Skipped: 0, Outcomes: map[string]int{"shard-skipped-after-abort": 1}})
+		return
+	}
 	defer shardCleanup()
 	var sh progShard
 	json.Unmarshal(arg, &sh)
@@ -457,6 +477,18 @@ func oneWorker(w *pool.W, arg json.RawMessage) {
 	}
 	v := check(src, k.Mode, k.Run)
 	w.Emit(map[string]any{"outcome": v.Outcome, "clause": v.Clause, "key": v.Key, "detail": v.Detail, "fuel": v.Fuel, "budget": budget(len(src)), "len": len(src), "src": clip(src)})
+}
+
+// abortFlag is a file the parent creates when the number of failing cases makes finishing the
+// enumeration pointless (a tree on which nearly every rejected input hangs); workers then skip
+// their remaining shards and the run is reported as non-exhaustive.
+func abortFlag(parent int) string {
+	return filepath.Join(scratchBase(), scratchPrefix(parent)+"abort")
+}
+
+func aborted() bool {
+	_, err := os.Stat(abortFlag(os.Getppid()))
+	return err == nil
 }
 
 func shardCleanup() {
@@ -723,13 +755,21 @@ func main() {
 	skipped := 0
 	samples := map[string]bool{}
 	var watchdog, undecided []string
+	var failing int64
+	abortRaised := false
+	abortAfter := int64(300_000) // unchanged tree: ~28k failing cases in quick, ~370k in thorough
+	if !quick {
+		abortAfter = 3_000_000
+	}
 	cpuOk, cpuFail := map[string]float64{}, map[string]float64{}
 	onRec := func(si int, rb json.RawMessage) {
 		var r sumRec
 		if json.Unmarshal(rb, &r) != nil || r.Kind != "sum" {
 			return
 		}
-		total[r.Fam] += r.N
+		if r.Fam != "aborted" {
+			total[r.Fam] += r.N
+		}
 		cpuOk[r.Fam] += r.CPUOk
 		cpuFail[r.Fam] += r.CPUFail
 		skipped += r.Skipped
@@ -749,6 +789,13 @@ func main() {
 		if r.Sample != nil && !samples[r.Fam] {
 			samples[r.Fam] = true
 			c.Sample(map[string]any{"family": r.Fam, "mode": r.Sample.Mode, "src": r.Sample.Src, "note": r.Sample.Note, "outcome": r.SampleOut})
+		}
+		for i := range r.Fails {
+			failing += int64(r.Fails[i].Count)
+		}
+		if failing > abortAfter && !abortRaised {
+			abortRaised = true
+			os.WriteFile(abortFlag(os.Getpid()), []byte("x"), 0o644)
 		}
 		for i := range r.Fails {
 			f := r.Fails[i]
@@ -847,6 +894,9 @@ func main() {
 	}
 	if outcomes["undecided-over-cap"] > 0 {
 		c.NotExhaustive(fmt.Sprintf("%d input(s) needed more than %d ticks while their bound cQuad*(n+1)^2 is larger: undecided", outcomes["undecided-over-cap"], int64(hardCap)))
+	}
+	if abortRaised {
+		c.NotExhaustive(fmt.Sprintf("enumeration abandoned after %d failing cases (%d shards skipped): the tree fails on a large share of all inputs", failing, outcomes["shard-skipped-after-abort"]))
 	}
 	if len(watchdog) > 0 {
 		c.HarnessError("inconclusive: %d item(s) killed by the pool's wall-clock watchdog (no verdict): %v", len(watchdog), watchdog)
